@@ -24,9 +24,10 @@ type pathAbort struct {
 }
 
 type progPanic struct {
-	val  Value
-	site string
-	msg  string
+	val   Value
+	site  string
+	msg   string
+	stack []string
 }
 
 type deferred struct {
@@ -138,6 +139,8 @@ type Engine struct {
 	pristine    map[*ssa.Package]map[*ssa.Global]*Value
 	violations  int64
 	forkSites   map[string]int
+	startPrefix []int
+	noFork      bool
 	stop        int32
 }
 
@@ -515,7 +518,9 @@ func (p *Path) concretizeStr(t *Term, what string) string {
 	}
 	ch := p.decide(append(conds, rest))
 	if ch == len(pool) {
-		p.unsupported("string %s outside its pool", what)
+		// membership in the pool was assumed when the symbol was created, so this alternative is infeasible
+		// (it is only reached when the string solver answered unknown)
+		p.abort("infeasible", "string %s outside its pool", what)
 	}
 	return pool[ch]
 }
@@ -578,7 +583,7 @@ func (p *Path) checkNeg(neg *Term, wantModel bool) (string, map[string]*Term, in
 		m = s.Model(collectSyms(append(append([]*Term{}, p.pc...), neg)))
 	}
 	s.Pop()
-	if r == "unsat" || (r == "sat" && m != nil) {
+	if r == "unsat" || (r == "sat" && (len(m) > 0 || !wantModel)) {
 		return r, m, time.Since(t0).Milliseconds()
 	}
 	as := append(append([]*Term{}, p.pc...), neg)
@@ -606,7 +611,9 @@ func (p *Path) record(o Obligation) {
 	o.Finding = strings.Join(p.tags, ",")
 	if o.Verdict == "sat" || o.Verdict == "unknown" {
 		o.Path = append([]int(nil), p.decisions...)
-		o.Stack = p.stack()
+		if o.Stack == nil {
+			o.Stack = p.stack()
+		}
 	}
 	e := p.eng
 	e.mu.Lock()
@@ -667,7 +674,7 @@ func (p *Path) dumpQuery(o *Obligation, neg *Term) {
 
 // panicNow: the program panics unconditionally on this path.
 func (p *Path) panicNow(site, msg string, val Value) {
-	panic(progPanic{val: val, site: site, msg: msg})
+	panic(progPanic{val: val, site: site, msg: msg, stack: p.stack()})
 }
 
 // panicIf: the program panics when cond holds. Continues under ¬cond.
@@ -687,7 +694,7 @@ func (p *Path) panicIf(cond *Term, site, msg string) {
 func (p *Path) reportPanic(pp progPanic) {
 	label := "no-panic"
 	r, m, ms := p.checkNeg(TTrue, true)
-	o := Obligation{Label: label, Kind: "panic", Site: pp.site, Msg: pp.msg, TimeMS: ms}
+	o := Obligation{Label: label, Kind: "panic", Site: pp.site, Msg: pp.msg, TimeMS: ms, Stack: pp.stack}
 	switch r {
 	case "unsat":
 		return // path infeasible after all
@@ -704,6 +711,9 @@ func (p *Path) reportPanic(pp progPanic) {
 // ---------------------------------------------------------------- engine run loop
 
 func (e *Engine) enqueue(prefix []int) {
+	if e.noFork {
+		return
+	}
 	e.mu.Lock()
 	e.queue = append(e.queue, prefix)
 	e.mu.Unlock()
@@ -711,7 +721,7 @@ func (e *Engine) enqueue(prefix []int) {
 }
 
 func (e *Engine) RunHarness(fn *ssa.Function) {
-	e.queue = [][]int{{}}
+	e.queue = [][]int{append([]int{}, e.startPrefix...)}
 	e.active = 0
 	var wg sync.WaitGroup
 	done := make(chan struct{})
